@@ -15,7 +15,7 @@ From NP Require Import Base Poly Harness Deriv.
 Delimit Scope Z_scope with CZ.
 Local Notation P := ZParr.
 """
-TARGETS = ["Props/P_C06.vo"]
+TARGETS = ["Gen/GenSource.vo", "Bridge/BridgeSrcC06.vo", "Props/P_C06.vo"]
 
 
 def opts_coq(o):
@@ -49,7 +49,8 @@ def d_spec(poly, var):
 
 
 def run(report, tier, seed):
-    ok = core.prove(report, TARGETS)
+    from harness.translators import source_tr
+    ok = core.prove_tied(report, TARGETS, [source_tr])
     rng = core.rng_for(seed, "C06")
     cc = core.CoqCases("C06", HEADER, shard=200)
     viol = []
